@@ -56,6 +56,13 @@ def transform(case):
 
 
 def check_case(case, ctx):
+    tf0 = case["transform"]
+    if "translate" in tf0:
+        dy, dx = tf0["translate"]
+        pts = [n[1] for n in case["graph"]] + [p[:2] for p in case["trace"]]
+        if any((p[0] + dy) - dy != p[0] or (p[1] + dx) - dx != p[1] for p in pts):
+            ctx.record(case, False, ["skipped:translation-not-exactly-representable"])
+            return
     m1, s1, i1 = common.run_match(case)
     c1 = base.canon(m1, s1, i1)
     g, t, cfg, ren, linked = transform(case)
@@ -107,6 +114,10 @@ def strategy(tier):
             tf["scale"] = draw(st.one_of(st.integers(-30, 30), st.sampled_from([-30, -20, -14, -10, 10, 20, 30])))
         # translation is not composed with scaling: offset/coordinate ratios of 1e10 would make the offsets inexact
         if kind == "translate":
+            # "exactly representable offsets": coordinate + offset must be exact, so the case is put on a 1/64 lattice first
+            # (offsets are multiples of 1/4 up to 2^22: 28 significant bits)
+            case["graph"] = [[lab, [round(p[0] * 64) / 64.0, round(p[1] * 64) / 64.0], nb] for lab, p, nb in case["graph"]]
+            case["trace"] = [[round(p[0] * 64) / 64.0, round(p[1] * 64) / 64.0] for p in case["trace"]]
             case["config"]["max_lattice_width"] = None
             tf["translate"] = [float(draw(st.sampled_from([1, -3, 1024, -65536, 2 ** 20, 0.5]))),
                                float(draw(st.sampled_from([0, 7, -1024, 4096, 2 ** 22, 0.25])))]
